@@ -205,6 +205,7 @@ class Explorer:
         self.ctor = ctor
         self.time_budget_s = time_budget_s
         self._injected = roots
+        self.injected_roots = False  # True: root timesteps are stale (state was edited); monitors skip root checks
         self._root_desc = root_desc
         self.chunk = max(1, min(1024, chunk_rows // max(1, self.nA)))
         # node table
@@ -277,9 +278,7 @@ class Explorer:
         size = 8
         while size < m:
             size *= 4
-        size = min(size, max(self.chunk, 8)) if m <= self.chunk else size
-        if size < m:
-            size = m
+        size = max(m, min(size, max(self.chunk, 8)))
         if size > m:
             pad = size - m
             state_np = tmap(lambda x: np.concatenate([x, np.repeat(x[:1], pad, axis=0)], axis=0), state_np)
@@ -412,8 +411,8 @@ class Explorer:
                 if capped:
                     break
             if not nxt_ids:
-                frontier = Batch(None, None, np.zeros(0, np.int64), np.zeros(0), np.zeros(0))
-                frontier.state = t_index(self._root_state, slice(0, 0))
+                frontier = Batch(t_index(self._root_state, slice(0, 0)), None, np.zeros(0, np.int64),
+                                 np.zeros(0, np.int32), np.zeros(0, np.int32))
                 break
             frontier = Batch(
                 t_concat(nxt_state), t_concat(nxt_ts), np.array(nxt_ids), np.array(nxt_post, np.int32),
